@@ -83,6 +83,7 @@ func Main() {
 	}
 	c := &Ctx{Prop: args[0], Tier: "quick", Seed: 1, Start: time.Now()}
 	out := ""
+	deadline := 0
 	for i := 1; i+1 < len(args); i += 2 {
 		switch args[i] {
 		case "--tier":
@@ -96,6 +97,8 @@ func Main() {
 			c.Scratch = args[i+1]
 		case "--replay":
 			c.Replay = args[i+1]
+		case "--deadline":
+			deadline, _ = strconv.Atoi(args[i+1])
 		}
 	}
 	f, ok := props[c.Prop]
@@ -110,10 +113,20 @@ func Main() {
 	os.MkdirAll(c.Scratch, 0755)
 	c.R = res.New(c.Prop)
 	c.Rng = prng.New(c.Seed).Split(hashStr(c.Prop))
-	f(c)
 	if out == "" {
 		out = filepath.Join(c.Scratch, "result.json")
 	}
+	if deadline > 0 {
+		// the driver's wall-clock budget: what was observed so far (violations are streamed by the children) is
+		// written out and the rest is reported as undecided, instead of losing everything to the driver's kill
+		go func() {
+			time.Sleep(time.Duration(deadline) * time.Second)
+			c.R.Inconcl(fmt.Sprintf("the run reached the driver's wall-clock budget (%d s) before all cases were executed", deadline))
+			c.R.Write(out)
+			os.Exit(0)
+		}()
+	}
+	f(c)
 	if err := c.R.Write(out); err != nil {
 		fmt.Fprintln(os.Stderr, "write result:", err)
 		os.Exit(3)
